@@ -617,13 +617,52 @@ def r7_7(prog, rep, pp):
                     continue
                 n += 1
                 key = (q, unparse(node) if isinstance(node, ast.Call) and dotted(node.func) in ("list", "tuple") else unparse(it))
-                reason = SET_ITERATION_OK.get(key)
+                reason = SET_ITERATION_OK.get(key) or _order_insensitive_consumer(f, node, parents)
                 construct = f"iteration over the set `{unparse(it)}`" + (f" in `{short(node, 50)}`" if isinstance(node, ast.Call) else "")
                 # passing through sorted(...) is always fine
                 obl(rep, f, node if hasattr(node, "lineno") else f.node, "R7.7", reason is not None, construct,
                     f"order-insensitive consumer: {reason}",
                     "the iteration order of a set (string hashing, varies between processes) can reach labels, columns or level order")
     rep.extra["set_iterations_examined"] = n
+
+
+def _order_insensitive_consumer(f, node, parents):
+    """structural reasons why the order of a set iteration cannot reach labels / columns:
+    (a) `frame[list(S)]`: a column selection by name - every later access is by name;
+    (b) the elements only feed the text of an exception / warning / log message."""
+    par = parents.get(id(node))
+    if isinstance(node, ast.Call) and dotted(node.func) in ("list", "tuple") and isinstance(par, ast.Subscript) and par.slice is node \
+            and isinstance(par.value, ast.Name) and par.value.id in f.params:
+        return "only selects columns of the frame by name; every later access is by name"
+    # find the statement; if it binds a local, all uses of that local must be inside raise / warn / log calls
+    st = node
+    while id(st) in parents and not isinstance(st, ast.stmt):
+        st = parents[id(st)]
+    if isinstance(st, ast.Raise):
+        return "feeds the text of the exception only"
+    if isinstance(st, ast.Expr) and isinstance(st.value, ast.Call) and (dotted(st.value.func) or "") in ("warnings.warn", "_log.info", "_log.debug", "_log.warning", "print"):
+        return "feeds the text of a warning / log message only"
+    if isinstance(st, ast.Assign) and len(st.targets) == 1 and isinstance(st.targets[0], ast.Name):
+        name = st.targets[0].id
+        uses = [x for x in ast.walk(f.node) if isinstance(x, ast.Name) and x.id == name and isinstance(x.ctx, ast.Load)]
+        ok = bool(uses)
+        for u in uses:
+            up = u
+            inside = False
+            while id(up) in parents:
+                up = parents[id(up)]
+                if isinstance(up, ast.Raise) or (isinstance(up, ast.Call) and (dotted(up.func) or "") in ("warnings.warn", "_log.info", "_log.debug", "_log.warning")):
+                    inside = True
+                    break
+                if isinstance(up, ast.Assign) and up is st:
+                    inside = True  # the re-binding itself (x = [str(v) for v in x])
+                    break
+                if isinstance(up, ast.stmt):
+                    break
+            ok = ok and inside
+        if ok:
+            return "feeds the text of the error / warning only"
+    return None
 
 
 def _is_set_expr(e, setvars):
